@@ -850,6 +850,13 @@ func (s *scen) doFs(st *Step) (ret, ino, kind string, recs []rec) {
 			s.sh.add(p, ino)
 			kind = "symlink"
 		}
+	case "symloop": // a symbolic link that names itself: resolving it fails with ELOOP
+		err = os.Symlink(filepath.Base(p), p)
+		if err == nil {
+			ino = s.newIno(p)
+			s.sh.add(p, ino)
+			kind = "symlink"
+		}
 	case "link":
 		ino, kind, _ = s.inoOf(p, false)
 		err = os.Link(p, s.fsPath(st.To))
